@@ -320,10 +320,13 @@ def strictOk (p : PropSpec) (vfn : Option (PV → Bool)) (conv : List PV) : Bool
 
 /-- `_process_found_property_value` + `_validate_property_value` for one found (non-`None`) value.
 first component `true` = validated, `false` = `ValueError` (the caller turns it into "no match"). -/
+def elemsOfM (found : PV) : Except Err (List PV) :=
+  match found with
+  | .fset l => .ok l
+  | v => if v.hashable then .ok [v] else .error (.type "unhashable-option-value")   -- `frozenset([value])`
+
 def processFound (p : PropSpec) (vfn : Option (PV → Bool)) (found : PV) : Except Err (Bool × List PV) := do
-  let elems ← match found with
-    | .fset l => pure l
-    | v => if v.hashable then pure [v] else throw (Err.type "unhashable-option-value")
+  let elems ← elemsOfM found
   let conv ← elems.mapM convElemM
   pure (strictOk p vfn conv, dedupe conv)
 
@@ -787,5 +790,30 @@ def Chain.wf : Chain → Bool
     if 2 ≤ ns.length then ns.all srcOk && allDistinct ns && op.ok && op.arityOk ns.length
     else Chain.wfU (.step (.src ns) op)
   | c => c.wfU
+
+/-! ## 11. The options form of one level -/
+
+def Param.toPV : Param → PV
+  | .s v => .str v
+  | .n v => .int v
+
+/-- keys of the required (no default) properties other than `in_features`, in PROPERTY_MAPPING order -/
+def requiredKeys (g : Group) : List Str :=
+  (g.props.filter fun p => !p.hasDefault && p.key != inFeaturesKey).map (·.key)
+
+/-- the option items that describe an operation: required key ↦ parameter -/
+def optKV (g : Group) (ps : List Param) : List (Str × PV) := (requiredKeys g).zip (ps.map Param.toPV)
+
+/-- `Feature(name, Options(context={<operation parameters>, "in_features": inVal}))` -/
+def optFeature (name : Str) (g : Group) (ps : List Param) (inVal : PV) : PV :=
+  .feat (.str name) [] (optKV g ps ++ [(inFeaturesKey, inVal)])
+
+/-- the single input feature denoted by an `in_features` value in the str / frozenset / Feature spellings -/
+def inValFeat : PV → Option PV
+  | .str s => if !s.isEmpty && !s.contains ',' then some (mkFeat s) else none
+  | .feat (.str n) g c => some (.feat (.str n) g c)
+  | .fset [.str s] => some (mkFeat s)
+  | .fset [.feat (.str n) g c] => some (.feat (.str n) g c)
+  | _ => none
 
 end Chain
